@@ -194,6 +194,18 @@ def locality_cutoff(case, ctx):
             ctx.check(np.all(d2[s][:, below[s]] == 0.0), ("cutoff", "below_nonzero", "dres", tag, modes), rhocut=rc, s=s)
 
 
+def _fd_subset(ctx, f, analytic, keep, x, sig):
+    """central-difference check restricted to the samples in `keep` (the others are not stepped)"""
+    hk = 1e-4 * np.abs(x[keep])
+
+    def g(step):
+        full = np.zeros(len(x))
+        full[keep] = step
+        return f(full)[keep]
+
+    return fd_check_vec(ctx, g, analytic[keep], sig, hk, rtol=1e-6)
+
+
 @st.composite
 def st_baseline(draw):
     return {"kind": draw(st.sampled_from(["native", "libxc"])), "nspin": draw(st.sampled_from([1, 2])),
@@ -228,6 +240,13 @@ def baseline_fd(case, ctx):
         X[:, 1] = rng.uniform(1e-3, 3.0, (nspin, n))     # s^2
         X[:, 2] = rng.uniform(0.0, 3.0, (nspin, n))      # alpha
         X[:, 3] = rng.uniform(0.05, 3.0, (nspin, n))     # a normalised nonlocal feature (NLDA_X_DAMP reads it)
+        if case["seed"] % 3 == 0:
+            # vanishing reduced gradient (nuclei, bond midpoints, the uniform gas): s^2 = 0 and values below the
+            # thresholds at which the baselines switch to series expansions
+            tiny_vals = np.array([0.0, 1e-14, 1e-10, 5e-9, 2e-8])
+            pick = rng.integers(0, 2, (nspin, n)).astype(bool)
+            X[:, 1][pick] = tiny_vals[rng.integers(0, len(tiny_vals), int(pick.sum()))]
+            ctx.event("has_vanishing_s2")
         fn = B.BASELINE_CODES[code]
         X0 = X.copy()
         out = fn(X)
@@ -244,7 +263,24 @@ def baseline_fd(case, ctx):
                     Xp[s, i] = X0[s, i] + step
                     return fn(Xp)[0]
 
-                fd_check_vec(ctx, f, de[s, i], ("native", code, "row%d" % i), 1e-4 * np.abs(X0[s, i]), rtol=1e-6)
+                tiny = X0[s, i] < 1e-6 if i == 1 else np.zeros(n, dtype=bool)
+                if not tiny.all():
+                    keep = ~tiny
+                    _fd_subset(ctx, f, de[s, i], keep, X0[s, i], ("native", code, "row%d" % i))
+                if tiny.any():
+                    # s^2 ~ 0: a central difference would step to negative s^2; one-sided differences with h and h/2,
+                    # extrapolated, h = 1e-7 (round-off 4e-16 |e| / h ~ 4e-9 |e|).  The Chachiyo enhancement factor has a
+                    # (s^2)^(3/2) term, so its s^2-derivative is continuous but not differentiable at 0 and the one-sided
+                    # difference converges only as sqrt(h) (measured 2.7e-3 at h = 1e-4): judged at 1e-2, which still
+                    # separates a derivative that is off by a factor or infinite
+                    ctx.finite(de[s, i][tiny], ("native", code, "row1", "vanishing_s2", "nonfinite"))
+                    h = 1e-7
+                    e0 = f(np.zeros(n))
+                    d1 = (f(np.where(tiny, h, 0.0)) - e0) / h
+                    d2 = (f(np.where(tiny, h / 2, 0.0)) - e0) / (h / 2)
+                    dfd = (2 * d2 - d1)[tiny]
+                    ctx.close(de[s, i][tiny], dfd, ("native", code, "row1", "vanishing_s2"), rtol=1e-2,
+                              atol=1e-9 * float(np.max(np.abs(e0))) + 1e-300, s2=X0[s, i][tiny])
         return
     code, mode = case["libxc"], case["mode"]
     ctx.event("libxc=%s/%s/nspin%d" % (code, mode, nspin))
